@@ -34,6 +34,8 @@ from rv.ref import c35_usb3link as L
 
 PROPERTY = "C40"
 CASES = {"quick": 32, "thorough": 480}
+# elaboration of the CRC-32 users dominates the cost; generous watchdog for a loaded machine
+TIMEOUT = {"quick": 3600, "thorough": 8 * 3600}
 RULE = ("case = 16 sub-sessions (DUT reset between) x 8 packets: data packets of all lengths mod 4 incl. zero length, ~45% damaged "
         "(CRC-32/payload/header CRC bit flips, aborts, short/long, K-symbol, missing CRC), other traffic between, not-valid words at "
         "random density and directed before each word role; non-trivial = >=1 damaged packet, >=1 not-valid word inside a payload "
